@@ -168,7 +168,8 @@ fn enum_type<'a>(input: &mut &'a [u8]) -> ModalResult<Type<'a>, InputError<&'a [
 fn inline_type<'a>(input: &mut &'a [u8]) -> ModalResult<Type<'a>, InputError<&'a [u8]>> {
     // Look ahead to see if this contains a colon (indicating struct)
     if let Some(pos) = input.iter().position(|&b| b == b')') {
-        let content = &input[1..pos]; // Skip opening paren
+        // Skip opening paren. Empty if the closing paren comes first (not an inline type).
+        let content = input.get(1..pos).unwrap_or_default();
         if content.contains(&b':') {
             struct_type(input)
         } else {
